@@ -543,6 +543,7 @@ func checkC14(c *Ctx) {
 
 	c14Renumber(c)
 	c14TwoContainers(c)
+	c14SlowReader(c)
 	c14Transport(c)
 	c14GetterValues(c)
 	c14ConcurrentJSON(c)
